@@ -1,10 +1,21 @@
-/- Tie T, fact F11 ("decision budget"): definitions shared by the per-module ties under CosetProofs/Ties/Budget/. -/
+/- Tie T, fact F11 ("decision budget"): definitions shared by the per-module ties under CosetProofs/Ties/Budget/ and Ties/Compare/. -/
 import CosetGen.Inventory
 import CosetRef.PinnedFacts
 namespace Coset.Ties
 
-/-- within module `m`, every construct / literal of `g` occurs in `p` at least as often. -/
-def budgetCovered (m : String) (g p : List (String × String × Nat)) : Bool :=
-  (g.filter fun x => x.1 == m).all fun x => p.any fun y => y.1 == m && x.2.1 == y.2.1 && decide (x.2.2 ≤ y.2.2)
+/-- items of the inventory that take part in a tie (`str:` / `chr:` items only guide the search). -/
+def tied (item : String) : Bool := !(item.startsWith "str:") && !(item.startsWith "chr:")
+
+/-- comparisons and integer literals: what a special case for one particular input is made of. -/
+def comparison (item : String) : Bool := item == "==" || item == "!=" || item == "<=" || item == ">=" || item.startsWith "lit:"
+
+/-- within module `m`, every construct / literal of `g` selected by `sel` occurs in `p` at least as often. -/
+def coveredBy (sel : String → Bool) (m : String) (g p : List (String × String × Nat)) : Bool :=
+  (g.filter fun x => x.1 == m && sel x.2.1).all fun x => p.any fun y => y.1 == m && x.2.1 == y.2.1 && decide (x.2.2 ≤ y.2.2)
+
+/-- the whole decision budget of a module (branches, comparisons, literals). -/
+def budgetCovered (m : String) (g p : List (String × String × Nat)) : Bool := coveredBy tied m g p
+/-- its comparisons and integer literals only. -/
+def compareCovered (m : String) (g p : List (String × String × Nat)) : Bool := coveredBy comparison m g p
 
 end Coset.Ties
